@@ -105,11 +105,11 @@ Scripts == { <<<<4, "v">>, <<1, "b">>, <<2, "b">>>>,  <<<<1, "b">>, <<2, "b">>, 
              <<<<3, "v">>, <<4, "v">>, <<1, "b">>, <<2, "b">>>>,  <<<<2, "b">>, <<1, "b">>, <<4, "v">>, <<3, "v">>>>,
              <<<<2, "v">>, <<1, "b">>, <<3, "b">>, <<4, "b">>>>,  <<<<1, "v">>, <<2, "b">>, <<3, "b">>, <<4, "b">>>> }
 SplitBases(m) == {P("tx", m, 1, "none", "ok", 1), P("tx", m, 1, "none", "fail", 1)}
-ScriptStep(m, sc, b, q) ==
+ScriptStep(m, sc, b, q, start) ==
   LET v == sc[1][1]  p == IF sc[1][2] = "b" THEN b ELSE q IN
   /\ Evidence(v, m, p.t, p.of, p.k, p.corr, p.st, p.n, p.rg)
   /\ H("Evidence", EvArgs(v, m, p))
-  /\ ph' = [ph EXCEPT !.s = 2, !.m = m, !.v = 4, !.c = 4, !.p = b, !.q = q, !.sc = Tail(sc), !.done = Vals, !.ord = Append(@, v)]
+  /\ ph' = [ph EXCEPT !.s = 2, !.m = m, !.v = 4, !.c = 4, !.p = b, !.q = q, !.sc = Tail(sc), !.done = Vals, !.ord = IF start THEN <<v>> ELSE Append(@, v)]
 GSplit ==
   /\ UNCHANGED theme
   /\ \/ /\ ph.sc = <<>> /\ ph.s <= 1
@@ -117,9 +117,9 @@ GSplit ==
              /\ CanBuild(m, 1, "none")
              /\ (Lean => Len(msgs[m].sigs) = (IF IsUsc(msgs[m].kind) THEN 0 ELSE 1))
              /\ (q.t = "tx" => CanBuild(q.of, q.k, q.corr))
-             /\ ScriptStep(m, sc, b, q)
+             /\ ScriptStep(m, sc, b, q, TRUE)
      \/ /\ ph.sc # <<>> /\ ph.m \in DOMAIN msgs
-        /\ ScriptStep(ph.m, ph.sc, ph.p, ph.q)
+        /\ ScriptStep(ph.m, ph.sc, ph.p, ph.q, FALSE)
 
 \* rejected submissions: message that is not queued / transaction that cannot exist
 GEvidenceBad ==
@@ -128,7 +128,7 @@ GEvidenceBad ==
      \/ \E m \in DOMAIN msgs : Evidence(1, m, "tx", nextId, 1, "none", "ok", 1, 1) /\ H("Evidence", EvArgs(1, m, P("tx", nextId, 1, "none", "ok", 1)))
   /\ ph' = [ph EXCEPT !.s = 1] /\ UNCHANGED theme
 
-GEndBlock == ph.sc = <<>> /\ ph.r <= MaxRounds /\ EndBlock /\ H("EndBlock", [x |-> 0]) /\ ph' = Ph0(ph.r + 1) /\ UNCHANGED theme
+GEndBlock == ph.sc = <<>> /\ ph.r <= MaxRounds /\ EndBlock /\ H("EndBlock", [x |-> 0]) /\ ph' = [Ph0(ph.r + 1) EXCEPT !.ord = ph.ord] /\ UNCHANGED theme
 
 GNext == ph.r <= MaxRounds /\ (GEnqueue \/ GSign \/ GEvidence \/ GSplit \/ GEvidenceBad \/ GEndBlock)
 
